@@ -10,6 +10,9 @@
 -/
 import PrologVerif.Proofs.DCGItems
 import PrologVerif.Proofs.DCGSemCall
+import PrologVerif.Proofs.DCGSem2Top
+import PrologVerif.Proofs.DCGSem2Phrase
+import PrologVerif.Proofs.DCGSem2XTop
 namespace PrologVerif.C17
 open PrologVerif PrologVerif.DCG PrologVerif.Grammar
 
@@ -230,7 +233,13 @@ example : Body.cut ∈ (Body.seq (.seq (.terminals [.atom "x"]) .cut) (.terminal
     evaluation (ISO cut semantics) of the TRANSLATED body in the TRANSLATED grammar and the
     denotation both finish within the fuel, they have the same answers — bindings of all variables
     of the query, i.e. recognition, argument binding and remainder — in the same order.
-    (Evaluated on every case of the stream c17.lang by the driver: verdict SPEC-INCONSISTENT.) -/
+    (Evaluated on every case of the stream c17.lang by the driver: verdict SPEC-INCONSISTENT.)
+
+    STATUS.  As written the statement is FALSE — its side conditions are too weak in two places that
+    the driver never exercises (`C17_statement_illformed_rule_witness`: rules whose `nv` is too
+    small; `C17_wf_statement_phrase_rule_witness`: a rule named `phrase`//1) — and with the side
+    conditions repaired it is PROVED in full: `C17_translation_sound_complete_corrected` (end of
+    this file).  It is kept here unchanged. -/
 def C17_translation_sound_complete_statement : Prop :=
   ∀ (cfg : Cfg) (gr : Grammar) (q l r : Term) (b : Body) (n : Nat),
     cfg.engine = false → Body.ofTerm q = .ok b → (∀ ru ∈ gr, clash ru.name ru.args.length = false) →
@@ -346,5 +355,406 @@ example : (solve 16 (programOf exampleGrammar) 4
   decide +kernel
 example : (den { uf := 16, engine := false } exampleGrammar 4 true (.nt "a" []) ⟨[], 1⟩
     (Term.list [.atom "x", .atom "y"])).map (·.answers.map (·.2)) = .ok [Term.nilT] := by decide +kernel
+
+/-! ### meaning, beyond ground inputs: unification, arguments, `{G}`, call//N
+
+  Stages A, B, C widen the fragment of `C17_translation_sound_complete_partial` toward the full
+  statement.  The input `l` is now ANY term (a list, a partial list `[hello, W | T]`, a variable:
+  generation), terminals and push-backs may contain variables, so both sides unify and bind.
+
+  Shape of the three theorems.  `q` is the body term, `b` what it reads as, `k` the first variable
+  not in `q`, `l`; the remainder is the fresh variable `S = .var k`.  With the SAME fuel `n`
+  (nesting depth of calls) and the same unification fuel `cfg.uf`, the reference SLD evaluation of
+  the translated body `Body(l, S)` in the translated grammar and the denotation ⟦b⟧ on `l`
+
+   * both give no result, or
+   * both succeed, with the same pending cut, the same number of answers and, answer by answer in
+     the same order, the same instance of `t(q, l, Remainder)` up to renaming of the variables that
+     are left (`Term.canon`, as `projected` does): the bindings of the query's variables, of the
+     variables of the input, and the remainder — on the SLD side `S` under the answer substitution,
+     on the denotation's side its remainder term under its answer substitution; or
+   * the SLD side alone runs out of UNIFICATION fuel (`.error .fuel` against `.ok`): it reaches the
+     same subterms deeper (one unification `S0 = [t1,…,tn | S]`, one unification of the whole
+     head, instead of n resp. arity-many separate ones), so the symmetric "both or neither" is
+     FALSE here — `C17_sld_needs_more_unification_fuel_witness`.  The converse never happens: if the
+     SLD side succeeds so does the denotation.
+
+  How it is proved (Proofs/DCGSem2*.lean).  The two sides use different variables and different
+  stores, so the invariant is a bisimulation up to a one-to-one correspondence of the unbound
+  variables (`World`, `World.Eq`); both sides perform the same unifications in the same order and
+  orientation on related terms, and related inputs give related outcomes (`unify_sim`) — no mgu
+  theory.  Not lock-step, and handled by explicit world steps: the hidden variables (bound on the
+  SLD side only), `S0 = [t… | S]` against an unbound `S0` (one binding against one per list cell:
+  `World.gen`), renaming apart with two different supplies (`World.addVars`).
+-/
+
+/-- **Stage A**: ISO mode; rules `name --> body`, `name, pushback --> body` WITHOUT arguments;
+    terminals and push-backs ARBITRARY terms (variables included, shared within a rule); bodies
+    from `[]`, terminal lists, argument-free non-terminals, `,`, `;`/`|`, if-then(-else), `\\+`,
+    `!`, `{true}`, `{fail}`, `{!}`; rules well-formed (`Rule.wf`: variables below `nv`, as
+    `Rule.ofTerm` delivers them); the input list ANY term. -/
+theorem C17_translation_sound_complete_A (cfg : Cfg) (gr : Grammar) (q l : Term) (b : Body)
+    (hq : Body.ofTerm q = .ok b) (h : SettingA cfg gr b) (n : Nat) :
+    let k := max (boundT q) (boundT l)
+    match solve cfg.uf (programOf gr) n (b.tr l (.var k) (k + 1)).1 ⟨[], k + 1 + b.nhid⟩,
+          den cfg gr n true b ⟨[], k + 1⟩ l with
+    | .ok A, .ok D =>
+      A.cut = D.cut ∧ A.answers.length = D.answers.length ∧
+      ∀ p ∈ A.answers.zip D.answers,
+        (resolve cfg.uf p.1.σ (Term.mk "t" [q, l, .var k])).map Term.canon =
+          (resolve cfg.uf p.2.1.σ (Term.mk "t" [q, l, p.2.2])).map Term.canon
+    | .error _, .error _ => True
+    | .error e, .ok _ => e = .fuel
+    | .ok _, .error _ => False := by
+  intro k
+  exact Agrees.strict ((h.toB.toC true).agrees q l hq n)
+
+/-- **Stage B**: as stage A, and non-terminals and rule heads WITH ARGUMENTS (any terms): head
+    unification against the call, rules renamed apart on both sides with their own supplies. -/
+theorem C17_translation_sound_complete_B (cfg : Cfg) (gr : Grammar) (q l : Term) (b : Body)
+    (hq : Body.ofTerm q = .ok b) (h : SettingB cfg gr b) (n : Nat) :
+    let k := max (boundT q) (boundT l)
+    match solve cfg.uf (programOf gr) n (b.tr l (.var k) (k + 1)).1 ⟨[], k + 1 + b.nhid⟩,
+          den cfg gr n true b ⟨[], k + 1⟩ l with
+    | .ok A, .ok D =>
+      A.cut = D.cut ∧ A.answers.length = D.answers.length ∧
+      ∀ p ∈ A.answers.zip D.answers,
+        (resolve cfg.uf p.1.σ (Term.mk "t" [q, l, .var k])).map Term.canon =
+          (resolve cfg.uf p.2.1.σ (Term.mk "t" [q, l, p.2.2])).map Term.canon
+    | .error _, .error _ => True
+    | .error e, .ok _ => e = .fuel
+    | .ok _, .error _ => False := by
+  intro k
+  exact Agrees.strict ((h.toC true).agrees q l hq n)
+
+/-- **Stage C**: as stage B, and `{G}` with `G` built from true, fail, `!`, `=`, `\\=`, `==`, `\\==`
+    and conjunctions (what the generator of c17.lang uses), and `call//N` (N ≥ 2) whose closure is
+    a non-variable term at translation time (functor not `call`/`phrase`). -/
+theorem C17_translation_sound_complete_C (cfg : Cfg) (gr : Grammar) (q l : Term) (b : Body)
+    (hq : Body.ofTerm q = .ok b) (h : SettingC true cfg gr b) (n : Nat) :
+    let k := max (boundT q) (boundT l)
+    match solve cfg.uf (programOf gr) n (b.tr l (.var k) (k + 1)).1 ⟨[], k + 1 + b.nhid⟩,
+          den cfg gr n true b ⟨[], k + 1⟩ l with
+    | .ok A, .ok D =>
+      A.cut = D.cut ∧ A.answers.length = D.answers.length ∧
+      ∀ p ∈ A.answers.zip D.answers,
+        (resolve cfg.uf p.1.σ (Term.mk "t" [q, l, .var k])).map Term.canon =
+          (resolve cfg.uf p.2.1.σ (Term.mk "t" [q, l, p.2.2])).map Term.canon
+    | .error _, .error _ => True
+    | .error e, .ok _ => e = .fuel
+    | .ok _, .error _ => False := by
+  intro k
+  exact Agrees.strict (h.agrees q l hq n)
+
+/-- **Stage C, closures computed at run time — and everything else**: `SettingC false` is the
+    non-strict fragment `Body.ok false`: `call//N` with ANY closure (a variable bound by the time
+    the call is reached, …), and in fact every body the reader delivers (call//1, phrase//1,
+    variable bodies, any goal in `{}`, any non-terminal name).  In the shape of the open
+    statement: whenever both sides succeed they agree.  ("Both or neither" cannot be claimed: a
+    closure can evaluate to the atom `call` or `phrase`, then the SLD side runs call/3 resp.
+    phrase/3 where the denotation finds no non-terminal and gives up; the denotation gives up on
+    goals in `{}` it does not cover; call//1 costs the SLD side one level of fuel more.) -/
+theorem C17_translation_sound_complete_C_dynamic (cfg : Cfg) (gr : Grammar) (q l : Term) (b : Body)
+    (hq : Body.ofTerm q = .ok b) (h : SettingC false cfg gr b) (n : Nat) :
+    let k := max (boundT q) (boundT l)
+    ∀ A D, solve cfg.uf (programOf gr) n (b.tr l (.var k) (k + 1)).1 ⟨[], k + 1 + b.nhid⟩ = .ok A →
+      den cfg gr n true b ⟨[], k + 1⟩ l = .ok D →
+      A.cut = D.cut ∧ A.answers.length = D.answers.length ∧
+      ∀ p ∈ A.answers.zip D.answers,
+        (resolve cfg.uf p.1.σ (Term.mk "t" [q, l, .var k])).map Term.canon =
+          (resolve cfg.uf p.2.1.σ (Term.mk "t" [q, l, p.2.2])).map Term.canon := by
+  intro k A D hA hD
+  have := h.agrees q l hq n
+  rw [hA, hD] at this
+  exact this
+
+/-- **the open statement for a fresh third argument.**  Exactly the conclusion of
+    `C17_translation_sound_complete_statement` — phrase/3 of the specification (`Grammar.phrase`:
+    parse, then unify what is left with `r`), the answers projected on `t(q, l, r)` with
+    `projected` — in the setting of stage C with arbitrary closures, when `r` is a variable that
+    occurs neither in `q` nor in `l` (parsing with a remainder, recognition of a prefix,
+    generation).  What is missing for the full statement: see the end of this file. -/
+theorem C17_translation_sound_complete_fresh_remainder (cfg : Cfg) (gr : Grammar) (q l : Term) (b : Body)
+    (v n : Nat) (hq : Body.ofTerm q = .ok b) (h : SettingC false cfg gr b)
+    (hv : max (boundT q) (boundT l) ≤ v) :
+    let r := Term.var v
+    let k := max (boundT q) (max (boundT l) (boundT r))
+    let st0 : St := { σ := [], next := k }
+    let g := b.tr l r k
+    let tmpl := Term.mk "t" [q, l, r]
+    ∀ A D, solve cfg.uf (programOf gr) n g.1 { st0 with next := g.2 } = .ok A →
+      Grammar.phrase cfg gr n b st0 l r = .ok D →
+      projected cfg.uf tmpl A.answers = projected cfg.uf tmpl D := by
+  intro r k st0 g tmpl A D hA hD
+  have hk : k = v + 1 := by
+    show max (boundT q) (max (boundT l) (v + 1)) = v + 1
+    omega
+  have hg2 : g.2 = v + 1 + b.nhid := by
+    show (b.tr l r k).2 = _
+    rw [tr_next, hk]
+  have hA' : solve cfg.uf (programOf gr) n (b.tr l (.var v) (v + 1)).1 ⟨[], v + 1 + b.nhid⟩ = .ok A := by
+    rw [← hA]
+    show _ = solve cfg.uf (programOf gr) n (b.tr l r k).1 ⟨[], g.2⟩
+    rw [hg2, hk]
+  have hD' : Grammar.phrase cfg gr n b ⟨[], v + 1⟩ l (.var v) = .ok D := by
+    rw [← hD]
+    show _ = Grammar.phrase cfg gr n b ⟨[], k⟩ l r
+    rw [hk]
+  exact phrase_agrees cfg h.iso gr (fun r hr => Rule.okC_good (List.all_eq_true.1 h.rules r hr)) q l b hq h.body v
+    (by omega) (by omega) n A D hA' hD'
+
+/-- **Stage D: the open statement for ANY third argument `r`** (recognition `r = []`, a partial
+    list, a variable shared with the input or the body, …), in the setting of stage C with
+    arbitrary closures: exactly the conclusion of `C17_translation_sound_complete_statement`
+    (without needing its hypothesis that the answers can be printed).
+
+    The translation hands `r` down to the LAST goal of every branch, where it is unified as soon
+    as the remainder is known, while the specification parses first and unifies every remainder
+    with `r` afterwards.  The proof moves the specification's final unification inside the
+    combinators of the denotation (`post`, Proofs/DCGSem2Post.lean: towards the last part of a
+    sequence, into both branches of an alternation, into the branches of an if-then-else, into the
+    rules of a non-terminal) and runs the bisimulation with the remainder argument an arbitrary
+    term (Proofs/DCGSem2X*.lean); the cut always precedes the unification with `r`, which is why
+    the two orders give the same answers.  With push-back the clause ends in `S = [pb… | S1]`
+    while phrase/3 unifies `[pb… | rem]` with `r`: the same unification with its arguments in
+    the opposite order (`unify_simF`). -/
+theorem C17_translation_sound_complete_D (cfg : Cfg) (gr : Grammar) (q l r : Term) (b : Body) (n : Nat)
+    (hq : Body.ofTerm q = .ok b) (h : SettingC false cfg gr b) :
+    let k := max (boundT q) (max (boundT l) (boundT r))
+    let st0 : St := { σ := [], next := k }
+    let g := b.tr l r k
+    let tmpl := Term.mk "t" [q, l, r]
+    ∀ A D, solve cfg.uf (programOf gr) n g.1 { st0 with next := g.2 } = .ok A →
+      Grammar.phrase cfg gr n b st0 l r = .ok D →
+      projected cfg.uf tmpl A.answers = projected cfg.uf tmpl D := by
+  intro k st0 g tmpl A D hA hD
+  have hg2 : g.2 = k + b.nhid := tr_next b l r k
+  have hA' : solve cfg.uf (programOf gr) n (b.tr l r k).1 ⟨[], k + b.nhid⟩ = .ok A := by
+    rw [← hA]
+    show _ = solve cfg.uf (programOf gr) n (b.tr l r k).1 ⟨[], g.2⟩
+    rw [hg2]
+  exact phrase_agreesX cfg h.iso gr (fun r hr => Rule.okC_good (List.all_eq_true.1 h.rules r hr)) q l r b hq h.body k
+    (by omega) (by omega) (by omega) n A D hA' hD
+
+/-! non-vacuity: the settings hold of concrete grammars, and both sides do succeed there (the
+    kernel evaluates them) -/
+
+/-- stage A: `dup, ab` against the partial list `[U, b, a | T]`:  U = b, then `a`, then the
+    unbound `T` is instantiated to `[P | R]` (generation) and `P` is pushed back: one answer,
+    remainder `[P | R]` -/
+example : SettingA {} exampleGrammarA (.seq (.nt "dup" []) (.nt "ab" [])) := by decide
+example :
+    let q := Term.a2 "," (.atom "dup") (.atom "ab")
+    let l := Term.list [.var 0, .atom "b", .atom "a"] (.var 1)
+    Body.ofTerm q = .ok (.seq (.nt "dup" []) (.nt "ab" [])) ∧
+    (solve 256 (programOf exampleGrammarA) 5 ((Body.seq (.nt "dup" []) (.nt "ab" [])).tr l (.var 2) 3).1 ⟨[], 4⟩).map
+        (fun o => o.answers.map fun st => (resolve 256 st.σ (Term.mk "t" [l, .var 2])).map Term.canon) =
+      .ok [some (Term.mk "t" [Term.list [.atom "b", .atom "b", .atom "a", .var 0] (.var 1), Term.list [.var 0] (.var 1)])] ∧
+    (den {} exampleGrammarA 5 true (.seq (.nt "dup" []) (.nt "ab" [])) ⟨[], 3⟩ l).map
+        (fun o => o.answers.map fun a => (resolve 256 a.1.σ (Term.mk "t" [l, a.2])).map Term.canon) =
+      .ok [some (Term.mk "t" [Term.list [.atom "b", .atom "b", .atom "a", .var 0] (.var 1), Term.list [.var 0] (.var 1)])] := by
+  decide +kernel
+
+/-- stage B: `greeting(X)` against `[hello, W | T]`: two answers, X = world with W = world, and
+    X = W; the remainder is `T` -/
+example : SettingB {} exampleGrammarB (.nt "greeting" [.var 0]) := by decide
+example :
+    let q := Term.mk "greeting" [.var 0]
+    let l := Term.list [.atom "hello", .var 1] (.var 2)
+    Body.ofTerm q = .ok (.nt "greeting" [.var 0]) ∧
+    (solve 256 (programOf exampleGrammarB) 5 ((Body.nt "greeting" [.var 0]).tr l (.var 3) 4).1 ⟨[], 4⟩).map
+        (fun o => o.answers.map fun st => (resolve 256 st.σ (Term.mk "t" [q, l, .var 3])).map Term.canon) =
+      .ok [some (Term.mk "t" [Term.mk "greeting" [.atom "world"], Term.list [.atom "hello", .atom "world"] (.var 0), .var 0]),
+           some (Term.mk "t" [Term.mk "greeting" [.var 0], Term.list [.atom "hello", .var 0] (.var 1), .var 1])] ∧
+    (den {} exampleGrammarB 5 true (.nt "greeting" [.var 0]) ⟨[], 4⟩ l).map
+        (fun o => o.answers.map fun a => (resolve 256 a.1.σ (Term.mk "t" [q, l, a.2])).map Term.canon) =
+      .ok [some (Term.mk "t" [Term.mk "greeting" [.atom "world"], Term.list [.atom "hello", .atom "world"] (.var 0), .var 0]),
+           some (Term.mk "t" [Term.mk "greeting" [.var 0], Term.list [.atom "hello", .var 0] (.var 1), .var 1])] := by
+  decide +kernel
+
+/-- … and in generation mode (the input an unbound variable): the same two answers with
+    `l = [hello, world | R]`, `l = [hello, N | R]` -/
+example :
+    (solve 256 (programOf exampleGrammarB) 5 ((Body.nt "greeting" [.var 0]).tr (.var 1) (.var 2) 3).1 ⟨[], 3⟩).map
+        (fun o => o.answers.map fun st => (resolve 256 st.σ (Term.mk "t" [.var 0, .var 1, .var 2])).map Term.canon) =
+    (den {} exampleGrammarB 5 true (.nt "greeting" [.var 0]) ⟨[], 3⟩ (.var 1)).map
+        (fun o => o.answers.map fun a => (resolve 256 a.1.σ (Term.mk "t" [.var 0, .var 1, a.2])).map Term.canon) ∧
+    (den {} exampleGrammarB 5 true (.nt "greeting" [.var 0]) ⟨[], 3⟩ (.var 1)).map (·.answers.length) = .ok 2 := by
+  decide +kernel
+
+/-- stage C: `pair(A, B)` (static closures, `{X = f(Y)}`, `{A \\== B}`) against `[x, V | T]`: one answer
+    A = f(x), B = f(V); against `[x, x]`: none (`f(x) \\== f(x)` fails) -/
+example : SettingC true {} (exampleGrammarC.take 2) (.nt "pair" [.var 0, .var 1]) := by decide
+example : SettingC false {} exampleGrammarC (.nt "twice" [.atom "item", .var 0, .var 1]) := by decide
+example :
+    let l := Term.list [.atom "x", .var 2] (.var 3)
+    (solve 256 (programOf exampleGrammarC) 6 ((Body.nt "pair" [.var 0, .var 1]).tr l (.var 4) 5).1 ⟨[], 5⟩).map
+        (fun o => o.answers.map fun st => (resolve 256 st.σ (Term.mk "t" [.var 0, .var 1, l, .var 4])).map Term.canon) =
+      .ok [some (Term.mk "t" [Term.mk "f" [.atom "x"], Term.mk "f" [.var 0], Term.list [.atom "x", .var 0] (.var 1), .var 1])] ∧
+    (den {} exampleGrammarC 6 true (.nt "pair" [.var 0, .var 1]) ⟨[], 5⟩ l).map
+        (fun o => o.answers.map fun a => (resolve 256 a.1.σ (Term.mk "t" [.var 0, .var 1, l, a.2])).map Term.canon) =
+      .ok [some (Term.mk "t" [Term.mk "f" [.atom "x"], Term.mk "f" [.var 0], Term.list [.atom "x", .var 0] (.var 1), .var 1])] ∧
+    (den {} exampleGrammarC 6 true (.nt "twice" [.atom "item", .var 0, .var 1]) ⟨[], 5⟩ l).map (·.answers.length) = .ok 1 ∧
+    (den {} exampleGrammarC 6 true (.nt "pair" [.var 0, .var 1]) ⟨[], 5⟩ (Term.list [.atom "x", .atom "x"])).map
+        (·.answers.length) = .ok 0 := by
+  decide +kernel
+
+/-! ### findings about the STATEMENTS (none about the translation) -/
+
+/-- **the symmetric shape "both sides error or both succeed" is false beyond ground terminals of
+    bounded size**: with unification fuel 3 the denotation consumes `[x, x, x]` (three unifications
+    of depth 1) while the ONE unification `[x,x,x] = [x,x,x | S]` of the translation runs out of
+    fuel at depth 4.  (In `C17_translation_sound_complete_partial` the hypothesis `Body.need ≤ uf`
+    excludes this; with variables no static bound exists.)  Not a defect: fuel is an artefact of
+    the two evaluators. -/
+theorem C17_sld_needs_more_unification_fuel_witness :
+    let b := Body.terminals [.atom "x", .atom "x", .atom "x"]
+    let l := Term.list [.atom "x", .atom "x", .atom "x"]
+    solve 3 (programOf []) 5 (b.tr l (.var 0) 1).1 ⟨[], 1⟩ = .error .fuel ∧
+    (den { uf := 3 } [] 5 true b ⟨[], 1⟩ l).map (·.answers.map (·.2)) = .ok [Term.nilT] := by
+  decide +kernel
+
+/-- **the open statement, as written, is FALSE**: it quantifies over every `gr : Grammar`, also
+    over rules whose field `nv` is smaller than their variables (`Rule.ofTerm` never produces such
+    a rule, and the driver only evaluates the statement on rules it read).  For
+    `a(X) --> [X]` with `nv = 0` the reference translation takes variable 0 as `S0`:
+    `a(V0, V0, V2) :- V0 = [V0 | V2]`; against `[x]` the SLD side fails, the denotation (which
+    renames with the same too small `nv`) answers `X = x`.  Neither engine/dcg.go (it draws its
+    variables from the engine's supply) nor the denotation is at fault: the statement lacks the
+    hypothesis `Rule.wf`. -/
+theorem C17_statement_illformed_rule_witness : ¬ C17_translation_sound_complete_statement := by
+  intro h
+  have hA : solve 256 (programOf illFormedGrammar) 5
+      ((Body.nt "a" [.var 0]).tr (Term.list [.atom "x"]) (.var 1) 2).1 ⟨[], 2⟩ = .ok ⟨[], false⟩ := by
+    decide +kernel
+  have hD : Grammar.phrase {} illFormedGrammar 5 (.nt "a" [.var 0]) ⟨[], 2⟩ (Term.list [.atom "x"]) (.var 1) =
+      .ok [⟨[(1, Term.nilT), (2, .atom "x"), (0, .var 2)], 2⟩] := by
+    decide +kernel
+  have := h {} illFormedGrammar (Term.mk "a" [.var 0]) (Term.list [.atom "x"]) (.var 1) (.nt "a" [.var 0]) 5
+    rfl (by decide +kernel) (by decide +kernel) ⟨[], false⟩ _ hA hD (by decide +kernel)
+  revert this
+  decide +kernel
+
+/-- the open statement with the hypothesis `Rule.wf` added — still FALSE, see the next witness -/
+def C17_translation_sound_complete_wf_statement : Prop :=
+  ∀ (cfg : Cfg) (gr : Grammar) (q l r : Term) (b : Body) (n : Nat),
+    cfg.engine = false → Body.ofTerm q = .ok b → (∀ ru ∈ gr, clash ru.name ru.args.length = false) →
+    (∀ ru ∈ gr, ru.wf = true) →
+    let k := max (boundT q) (max (boundT l) (boundT r))
+    let st0 : St := { σ := [], next := k }
+    let g := b.tr l r k
+    let tmpl := Term.mk "t" [q, l, r]
+    ∀ A D, solve cfg.uf (programOf gr) n g.1 { st0 with next := g.2 } = .ok A →
+      Grammar.phrase cfg gr n b st0 l r = .ok D →
+      (∀ o ∈ projected cfg.uf tmpl A.answers ++ projected cfg.uf tmpl D, o.isSome) →
+      projected cfg.uf tmpl A.answers = projected cfg.uf tmpl D
+
+/-- **the hypothesis `clash` of the open statement misses `phrase`//1** (and is otherwise too
+    coarse: `special`).  With the well-formed rules
+        phrase(X) --> [].        x --> [x].
+    the body `call(phrase, x)` on `[x]`: the translation calls `phrase(x, [x], S)`, which is
+    phrase/3 — it parses `x` and leaves `[]`; the denotation takes `phrase`//1 for the user's
+    non-terminal and leaves `[x]`.  Both succeed, with different remainders.  On a real system the
+    rule `phrase(X) --> []` would be a clause for the built-in phrase/3 (a permission error), so
+    this is a gap of the statement's side condition (and of the denotation, which should not look
+    up a rule named like a built-in), not of engine/dcg.go. -/
+theorem C17_wf_statement_phrase_rule_witness : ¬ C17_translation_sound_complete_wf_statement := by
+  intro h
+  let gr : Grammar :=
+    [ { name := "phrase", args := [.var 0], pushback := none, body := .eps, nv := 1 },
+      { name := "x", args := [], pushback := none, body := .terminals [.atom "x"], nv := 0 } ]
+  have hA : solve 256 (programOf gr) 8
+      ((Body.nt "call" [.atom "phrase", .atom "x"]).tr (Term.list [.atom "x"]) (.var 0) 1).1 ⟨[], 1⟩ =
+      .ok ⟨[⟨[(3, Term.nilT), (0, .var 3), (1, Term.list [.atom "x"])], 4⟩], false⟩ := by
+    decide +kernel
+  have hD : Grammar.phrase {} gr 8 (.nt "call" [.atom "phrase", .atom "x"]) ⟨[], 1⟩ (Term.list [.atom "x"]) (.var 0) =
+      .ok [⟨[(0, Term.list [.atom "x"]), (1, .atom "x")], 2⟩] := by
+    decide +kernel
+  have := h {} gr (Term.mk "call" [.atom "phrase", .atom "x"]) (Term.list [.atom "x"]) (.var 0)
+    (.nt "call" [.atom "phrase", .atom "x"]) 8 rfl (by decide +kernel) (by decide +kernel) (by decide +kernel)
+    _ _ hA hD (by decide +kernel)
+  revert this
+  decide +kernel
+
+/-- **full statement, corrected.**  The open statement with its side conditions repaired:
+    rules are well-formed (`Rule.wf`: the variables of a rule are below its `nv`), no rule is named
+    like a control construct or built-in of the reference evaluation at the arity the translation
+    gives it (`special`: `'='`//0, `','`//0, …, `call`//N, `phrase`//1 — instead of `clash`), and
+    rule bodies are as the reader delivers them (`Body.ok false`: an alternation never has a bare
+    if-then as its first branch, `( c -> t ; e )` is an if-then-else).  Every rule read by
+    `Rule.ofTerm` satisfies the first and the third (`C17_read_rules_wellformed`).  The hypothesis
+    that the answers can be printed is not needed. -/
+def C17_translation_sound_complete_corrected_statement : Prop :=
+  ∀ (cfg : Cfg) (gr : Grammar) (q l r : Term) (b : Body) (n : Nat),
+    cfg.engine = false → Body.ofTerm q = .ok b →
+    (∀ ru ∈ gr, special ru.name ru.args.length = false ∧ ru.wf = true ∧ ru.body.ok false = true) →
+    let k := max (boundT q) (max (boundT l) (boundT r))
+    let st0 : St := { σ := [], next := k }
+    let g := b.tr l r k
+    let tmpl := Term.mk "t" [q, l, r]
+    ∀ A D, solve cfg.uf (programOf gr) n g.1 { st0 with next := g.2 } = .ok A →
+      Grammar.phrase cfg gr n b st0 l r = .ok D →
+      projected cfg.uf tmpl A.answers = projected cfg.uf tmpl D
+
+/-- **C17_translation_sound_complete (stage E: the full statement, corrected, PROVED).**  For
+    EVERY grammar (side conditions above), EVERY body the reader delivers — terminals with variables,
+    non-terminals with arguments, `,`, `;`, `|`, if-then(-else), `\\+`, `!`, `{G}` with any `G`,
+    call//N with any closure, call//1, phrase//1, variable bodies, push-back —, EVERY input `l` and
+    EVERY third argument `r` (recognition, parsing with a remainder, generation, partial lists,
+    shared variables), every fuel: whenever the reference SLD evaluation (ISO cut semantics) of the
+    TRANSLATED body in the TRANSLATED grammar and phrase/3 of the specification both give a result,
+    they have the same answers — the same bindings of all variables of `q`, `l`, `r` up to
+    renaming of the variables that are left — in the same order.
+
+    Where the denotation does not cover a construct (a goal in `{}` outside true, fail, `!`, `=`,
+    `\\=`, `==`, `\\==`, `,`; a non-terminal named like a control construct; a body that is not
+    callable at run time) it gives up when it reaches it, and the statement is vacuous for that
+    query — as the open statement intended.  call//1 costs the SLD side one level of fuel more than
+    the denotation (`solve_mono` bridges it). -/
+theorem C17_translation_sound_complete_corrected : C17_translation_sound_complete_corrected_statement := by
+  intro cfg gr q l r b n hiso hq hgr k st0 g tmpl A D hA hD
+  have hg2 : g.2 = k + b.nhid := tr_next b l r k
+  have hA' : solve cfg.uf (programOf gr) n (b.tr l r k).1 ⟨[], k + b.nhid⟩ = .ok A := by
+    rw [← hA]
+    show _ = solve cfg.uf (programOf gr) n (b.tr l r k).1 ⟨[], g.2⟩
+    rw [hg2]
+  exact phrase_agreesX cfg hiso gr (fun ru hru => ⟨(hgr ru hru).1, (hgr ru hru).2.2, (hgr ru hru).2.1⟩) q l r b hq
+    (ofTerm_ok q b hq) k
+    (by omega) (by omega) (by omega) n A D hA' hD
+
+/-- non-vacuity of the corrected statement: `t([Z])` with `t(B) --> call(a), phrase(b), B.` against
+    `[x, y, z]` and the third argument `[]` (recognition): both sides succeed with the one answer
+    Z = z -/
+example :
+    let q := Term.mk "t" [Term.list [.var 0]]
+    let b := Body.nt "t" [Term.list [.var 0]]
+    let l := Term.list [.atom "x", .atom "y", .atom "z"]
+    Body.ofTerm q = .ok b ∧
+    (∀ ru ∈ exampleGrammarE, special ru.name ru.args.length = false ∧ ru.wf = true ∧ ru.body.ok false = true) ∧
+    (solve 256 (programOf exampleGrammarE) 8 (b.tr l Term.nilT 1).1 ⟨[], 1⟩).map
+        (fun o => projected 256 (Term.mk "t" [q, l, Term.nilT]) o.answers) =
+      .ok [some (Term.mk "t" [Term.mk "t" [Term.list [.atom "z"]], l, Term.nilT])] ∧
+    (Grammar.phrase {} exampleGrammarE 8 b ⟨[], 1⟩ l Term.nilT).map
+        (fun o => projected 256 (Term.mk "t" [q, l, Term.nilT]) o) =
+      .ok [some (Term.mk "t" [Term.mk "t" [Term.list [.atom "z"]], l, Term.nilT])] := by
+  decide +kernel
+
+/-- every rule the reader delivers satisfies the side conditions `Rule.wf` and `Body.ok false` -/
+theorem C17_read_rules_wellformed (rt : Term) (r : Rule) (h : Rule.ofTerm rt = .ok r) :
+    r.wf = true ∧ r.body.ok false = true :=
+  ofTerm_rule_wf rt r h
+
+/-! ### what is left
+
+  * `cfg.engine = true` (the engine's cut barriers for nested `;`/`->`, finding C17-K1): the
+    reference SLD evaluation has ISO cut semantics only; not part of the open statement either.
+  * "Both sides give no result, or both succeed" (the strict shape of stages A–C) is proved for the
+    fragment of stage C with closures known at translation time; beyond it the two evaluators give
+    up at different points (the denotation on constructs it does not cover, the SLD side one level
+    of fuel earlier in call//1, and it needs more unification fuel), so only "whenever both
+    succeed they agree" can hold — `C17_sld_needs_more_unification_fuel_witness`.
+  * The VM that executes the translated clauses is not the reference SLD evaluation (C01/C03; the
+    stream c17.lang observes it).
+-/
 
 end PrologVerif.C17
